@@ -9,6 +9,9 @@ const (
 	EOS               = -1
 	_UNKNOWN          = -2
 	maxRecursionLevel = 1000000
+	// maxCaptures is LUA_MAXCAPTURES of lstrlib: it also bounds the depth of parsePattern's
+	// recursion, one level per '('
+	maxCaptures = 32
 )
 
 /* Error {{{ */
@@ -85,9 +88,10 @@ type scannerState struct {
 }
 
 type scanner struct {
-	src   []byte
-	State scannerState
-	saved scannerState
+	src      []byte
+	State    scannerState
+	saved    scannerState
+	captures int // number of captures opened so far
 }
 
 func newScanner(src []byte) *scanner {
@@ -406,6 +410,10 @@ func parsePattern(sc *scanner, toplevel bool) *seqPattern {
 			return pat
 		case '(':
 			sc.Next()
+			sc.captures++
+			if sc.captures > maxCaptures {
+				panic(newError(sc.CurrentPos(), "too many captures"))
+			}
 			if sc.Peek() == ')' {
 				sc.Next()
 				pat.Patterns = append(pat.Patterns, &posCapPattern{})
